@@ -861,6 +861,9 @@ class RTCPeerConnection(AsyncIOEventEmitter):
 
         # gather candidates
         await self.__gather()
+
+        # the connection may have been closed in the meantime
+        self.__assertNotClosed()
         for i, media in enumerate(description.media):
             if media.kind in ["audio", "video"]:
                 transceiver = self.__getTransceiverByMLineIndex(i)
@@ -887,6 +890,9 @@ class RTCPeerConnection(AsyncIOEventEmitter):
         :param sessionDescription: An :class:`RTCSessionDescription` created from
                                     information received over the signaling channel.
         """
+        # check state is valid
+        self.__assertNotClosed()
+
         self.__log_debug(
             "setRemoteDescription(%s)\n%s",
             sessionDescription.type,
@@ -1053,6 +1059,9 @@ class RTCPeerConnection(AsyncIOEventEmitter):
             for iceTransport, media in iceCandidates.items()
         ]
         await asyncio.gather(*coros)
+
+        # the connection may have been closed in the meantime
+        self.__assertNotClosed()
 
         # FIXME: in aiortc 2.0.0 emit RTCTrackEvent directly
         for event in trackEvents:
@@ -1269,6 +1278,9 @@ class RTCPeerConnection(AsyncIOEventEmitter):
         return receiveParameters
 
     def __setSignalingState(self, state: str) -> None:
+        # the "closed" state is final
+        if self.__signalingState == "closed":
+            return
         self.__signalingState = state
         self.emit("signalingstatechange")
 
